@@ -23,7 +23,7 @@ RULE = ("cases = (script, output mode, normalize_names, group_by_type): random s
         "sample, thorough: 15 modes x normalize_names x group_by_type on everything; each result is checked against the documented "
         "shape and json_dump=True is compared with json.dumps of the plain result. Non-trivial = the result contains at least one "
         "table with columns; distinct = distinct (script, mode, flags)."
-        " Added after seeded defects: scripts from the shared pool of all generators, enumerated sort-direction patterns on key clauses with DROP TABLE entries, json_dump True/False histories on one object.") % len(GS.all_kinds())
+        " Added after seeded defects: scripts from the shared pool of all generators, enumerated sort-direction patterns on key clauses with DROP TABLE entries, json_dump True/False histories on one object, keys declared twice and keys that start with the last column, ALTERs naming a column the table does not have, statements addressing an undefined table (judged only if a result is returned).") % len(GS.all_kinds())
 ASSUMPTIONS = ["'primary_key names only this table's columns' is asserted for generator scripts only (corpus scripts legitimately name key columns the table does not define)",
                "scripts on which run() raises are not 'successful output' and are skipped (C16 decides them)"]
 MIN_EVENTS = {"run_return": 500}
@@ -110,6 +110,17 @@ def run_shard(ctx):
                 if ctx.mine(q):
                     check_case(ctx, {"gen": "empty", "ddl": ddl, "ctor": {"normalize_names": True} if nn else {}, "mode": mode, "group_by_type": gbt, "json_dump": True})
                     ctx.obs["empty_result_scripts"] += 1
+    # statements that address a table the script does not define: rejected today (ValueError); should a result ever be returned instead,
+    # it has to have the documented shape like any other
+    for q, ddl in enumerate(["CREATE TABLE a (id int PRIMARY KEY, b int);\nCREATE INDEX ix_c ON customers (name);\n",
+                             "CREATE TABLE a (id int);\nALTER TABLE customers ADD CONSTRAINT fk FOREIGN KEY (a_id) REFERENCES a (id);\n",
+                             "CREATE UNIQUE INDEX ux ON s.nowhere (x DESC, y);\n", "ALTER TABLE nowhere ADD c int;\n", "ALTER TABLE nowhere DROP COLUMN c;\nCREATE TABLE z (a int);\n"]):
+        for mode in ("sql", "mysql", "bigquery", "hql"):
+            for gbt in (False, True):
+                q += 1
+                if ctx.mine(q):
+                    check_case(ctx, {"gen": "orphan_statement", "ddl": ddl, "ctor": {}, "mode": mode, "group_by_type": gbt, "json_dump": True})
+                    ctx.obs["orphan_statement_scripts"] += 1
     # enumerated key clauses: every pattern of sort directions over 2..3 key columns, named or not, [NON]CLUSTERED or not -
     # primary_key must stay a list of the table's column names
     import itertools
@@ -125,9 +136,16 @@ def run_shard(ctx):
                     if k % 4 == 0:
                         cols[3]["opts"] = [{"k": "pk"}]        # the key declared twice: inline on c3 and by the clause
                     cl = {"kind": "pk", "cols": ["c%d" % q for q in range(ncols)], "name": name, "orders": list(orders), "modifier": modifier}
+                    if k % 6 in (1, 4):
+                        cl["cols"] = ["c%d" % (3 - q) for q in range(ncols)]      # the key starts with the table's LAST column
                     t = {"schema": None, "name": "t", "prefix": "plain", "items": [("col", c) for c in cols] + [("clause", cl)]}
                     layout = [None, {"case": "lower"}][k % 2]
-                    ddl = finish_script([render(S.table_tokens(t), layout, rng), "DROP TABLE old_t;", "DROP TABLE s.old_t2;"])
+                    extra = []
+                    if k % 3 == 1:
+                        # ALTERs that name a column the table does not have: whatever they do, the key still lists columns of the table
+                        extra = [["ALTER TABLE t MODIFY COLUMN zz_unknown bigint;"], ["ALTER TABLE t DROP COLUMN zz_unknown;"], ["ALTER TABLE t ALTER COLUMN zz_unknown varchar(5);"],
+                                 ["ALTER TABLE t RENAME COLUMN zz_unknown TO zz_other;"], ["ALTER TABLE t ADD COLUMN c9 int;", "ALTER TABLE t MODIFY COLUMN c9 bigint;"]][(k // 3) % 5]
+                    ddl = finish_script([render(S.table_tokens(t), layout, rng)] + extra + ["DROP TABLE old_t;", "DROP TABLE s.old_t2;"])
                     for mode in ("sql", "mssql", "bigquery", "oracle"):
                         check_case(ctx, {"gen": "key_orders", "ddl": ddl, "ctor": {}, "mode": mode, "group_by_type": bool(k % 3 == 0), "json_dump": True})
                     ctx.obs["enumerated_key_order_patterns"] += 1
